@@ -1,4 +1,5 @@
 import Verif.Model.Wordlist
+import Verif.Model.Names
 import Verif.Driver.Util
 namespace Verif.Driver
 open Verif.WL
@@ -26,6 +27,14 @@ def handleWL (fs : List (List String)) : Option String :=
     let lc := ";".intercalate (cols.map fun l => s!"{l}=" ++ nl (listOfCol rows cols l))
     let lr := ";".intercalate ((concepts rows).map fun c => s!"{c}=" ++ nl (listOfRow rows cols c))
     some s!"W {arr} # {ety} # {paps} # {dst} # {lc} # {lr}"
+  | [["names"], items] =>
+    -- item = lower-cased name ":" name, each a comma-separated list of code points
+    let codes := fun (t : String) => if t == "" then ([] : List Nat) else (t.splitOn ",").map nat!
+    let vals : List Verif.Names.Name := items.map fun it =>
+      match it.splitOn ":" with
+      | [lo, nm] => (codes lo, codes nm)
+      | _ => ([], [])
+    some ("S " ++ " ".intercalate ((Verif.Names.distinctSorted vals).map fun v => nl v.2))
   | [["renumber"], src, xs] =>
     some ("N " ++ nl ((nats xs).map (renumber (nats src))))
   | _ => none
